@@ -42,6 +42,34 @@ class PixelLogits(nn.Module):
         return y + bias[None, :, None]
 
 
+class PixelLogitsEmbed(nn.Module):
+    """PixelLogits with a second input (embedding ids, as engines with `embed_id` pass): id k favours class k by a constant"""
+
+    def __init__(self, n_classes: int, pool: int, bias_blank: float, offset: float):
+        super().__init__()
+        self.base = PixelLogits(n_classes, pool, bias_blank, 0, offset)
+        self.n_classes = n_classes
+
+    def forward(self, x, ids):
+        y = self.base(x)
+        onehot = torch.nn.functional.one_hot(ids, self.n_classes).to(y.dtype)
+        return y + 25.0 * onehot[:, :, None]
+
+
+def make_embed_engine(n_classes, characters, embed_id, line_px_height=8, pool=4, bias_blank=3.0, offset=0.25, batch_size=8):
+    from pero_ocr.ocr_engine.pytorch_ocr_engine import PytorchEngineLineOCR
+    os.makedirs(STUB_DIR, exist_ok=True)
+    p = os.path.join(STUB_DIR, f'pixlogits_embed_c{n_classes}_p{pool}_b{bias_blank}_o{offset}.pt')
+    if not os.path.exists(p + '.cpu'):
+        m = torch.jit.script(PixelLogitsEmbed(n_classes, pool, float(bias_blank), float(offset)))
+        tmp = p + f'.cpu.{os.getpid()}.tmp'
+        m.save(tmp)
+        os.replace(tmp, p + '.cpu')
+    js = engine_json(f'engine_embed_c{n_classes}_e{embed_id}_h{line_px_height}', p, characters, line_px_height,
+                     extra={'embed_num': n_classes - 1, 'embed_id': embed_id})
+    return PytorchEngineLineOCR(js, torch.device('cpu'), batch_size=batch_size)
+
+
 def stub_path(n_classes, pool, bias_blank, ctx, offset=0.0):
     return os.path.join(STUB_DIR, f'pixlogits_c{n_classes}_p{pool}_b{bias_blank}_x{ctx}_o{offset}.pt')
 
